@@ -10,7 +10,8 @@ import vcheck, vdrv
 CLASSES = """class N { public int id; public N next; public constructor(int i) -> N { this.id = i; this.next = null; } public function get() -> int { return this.id; } }
 class R { public int id; public constructor(int i) -> R { this.id = i; return this; } }
 class P { public N a; public N b; public constructor(N x, N y) -> P { this.a = x; this.b = y; } public function sum() -> int { return this.a.id * 10 + this.b.id; } }
-class D { public int id; public constructor(int i) -> D { this.id = i; } public destructor() -> void { echo("~D" + this.id); } }
+class D { public int id; public constructor(int i) -> D { this.id = i; } public destructor() -> void { echo("~D" + this.id); } public function twice(int k) -> int { return this.id * 2 + k; } }
+function mkd(int i) -> D { D t = new D(i); return t; }
 class W { public N inner = new N(7); public int k = 1; public constructor() -> W = default; }
 class Q { public qubit q; public int tag = 4; public constructor() -> Q = default; }
 class T { @tracked public qubit q; public constructor() -> T = default; }
@@ -26,6 +27,9 @@ function chain(int n) -> N { N head = new N(0); N cur = head; for (int i = 1; i 
 function len(N h) -> int { int c = 0; N cur = h; for (int i = 0; i < 50; i = i + 1) { if (cur == null) { return c; } c = c + 1; cur = cur.next; } return c; }
 """
 BODIES = {
+    "operand-temp": ["boolean b = mkd(1) == mkd(2);", "echo(b);", "echo(\"end\");"],
+    "operand-temp-3": ["boolean b = (mkd(1) == mkd(2)) == (mkd(3) != mkd(4));", "echo(b);"],
+    "receiver-temp": ["echo(mkd(5).id + burst(2));", "echo(\"mid\");", "echo(mkd(6).twice(burst(1)));"],
     "args-calls": ["echo(link(mk(1), mk(2)));"],
     "args-new": ["echo(link(new N(1), new N(2)));"],
     "args-mixed": ["echo(link(mk(1), new N(2)));", "echo(link(new N(3), mk(4)));"],
@@ -39,17 +43,17 @@ BODIES = {
     "method-on-temp": ["echo(mk(5).get() + burst(2));", "echo(mk(6).get() + mk(7).get());"],
     "field-init": ["W w = new W();", "echo(w.inner.id + w.k);", "echo(burst(2));", "echo(w.inner.id);"],
     "field-of-object": ["P p = new P(new N(1), new N(2));", "p.a = new N(5);", "echo(burst(2));", "echo(p.sum());"],
-    "static-field": ["S.keep = new N(3);", "echo(burst(3));", "echo(S.keep.id);", "S.keep = null;", "echo(burst(1));"],
+    "static-field": ["S.keep = new N(3);", "echo(burst(2));", "echo(S.keep.id);", "S.keep = null;", "echo(burst(1));"],
     "cycle-null": ["N a = new N(1);", "N b = new N(2);", "a.next = b;", "b.next = a;", "echo(a.next.id);", "a = null;", "b = null;", "echo(burst(2));"],
     "cycle-destroy": ["N a = new N(1);", "N b = new N(2);", "a.next = b;", "b.next = a;", "destroy a;", "echo(b.next.id);", "destroy b;", "echo(burst(1));"],
     "cycle-3-kept": ["N a = new N(1);", "N b = new N(2);", "N c = new N(3);", "a.next = b;", "b.next = c;", "c.next = a;", "b = null;", "c = null;", "echo(burst(2));", "echo(a.next.next.id);"],
     "destructor-scope": ["D d = new D(1);", "{ D e = new D(2); echo(\"in\"); }", "echo(\"out\");", "d = null;", "echo(\"end\");"],
     "destructor-overwrite": ["D d = new D(1);", "d = new D(2);", "echo(\"mid\");", "d = new D(3);", "echo(burst(2));"],
-    "qubit-object": ["Q q = new Q();", "h(q.q);", "echo(burst(3));", "echo(q.tag);", "measure q.q;"],
+    "qubit-object": ["Q q = new Q();", "h(q.q);", "echo(burst(2));", "echo(q.tag);", "measure q.q;"],
     "tracked-object": ["T t = new T();", "x(t.q);", "measure t.q;", "echo(burst(2));", "t = null;", "echo(burst(1));"],
-    "pressure": ["echo(burst(20));", "N k = new N(9);", "echo(burst(20));", "echo(k.id);"],
+    "pressure": ["echo(burst(18));", "N k = new N(9);", "echo(burst(18));", "echo(k.id);"],
     "pressure-args": ["echo(link(mk(burst(18)), mk(burst(18))));"],
-    "list": ["N h = chain(5);", "echo(len(h));", "echo(burst(3));", "echo(len(h));", "h.next.next = null;", "echo(burst(2));", "echo(len(h));"],
+    "list": ["N h = chain(5);", "echo(len(h));", "echo(burst(2));", "echo(len(h));", "h.next.next = null;", "echo(burst(2));", "echo(len(h));"],
     "list-temp": ["echo(len(chain(4)));", "echo(len(ident(chain(3))));"],
     "loop-alloc": ["int s = 0;", "for (int i = 0; i < 3; i = i + 1) { N t = mk(i); s = s + link(t, mk(i + 1)); }", "echo(s);"],
     "error-after-alloc": ["N a = new N(1);", "echo(link(mk(1), mk(2)));", "int z = 0;", "echo(1 / z);"],
@@ -78,69 +82,96 @@ def schedules(K, K0, d):
 
 _K0 = 8
 _D = 2
+_BUDGET = 4000
 
 
-def _one(name):
+def _base(name):
     src = program(name)
     base = vdrv.run_src(src, gc="none", warn=0, want="tracked")
     if base.crash or base.rec is None:
-        return name, src, [("none", "the run without collections died: %s %s" % (base.crash, base["fd2"][:300]))], 1, 0, None
-    K = base.rec["polls"]
-    ref = observe(base.rec)
-    scheds = list(schedules(K, _K0, _D))
-    bad = []
-    nruns = 1
-    B = 48
-    for i in range(0, len(scheds), B):
-        chunk = scheds[i:i + B]
-        spec = "/".join("mask:" + ",".join(map(str, s)) for s in chunk)
-        r = vdrv.run_job({"id": "g", "kind": "run", "opts": {"shots": len(chunk), "gcs": spec, "warn": 0, "want": "tracked", "timeout_ms": 60000}, "blobs": {"src": src}})
-        nruns += len(chunk)
-        recs = r["records"]
-        if r.crash or len(recs) != len(chunk):
-            # attribute: re-run the schedules of this chunk one by one
-            for s in chunk:
-                r1 = vdrv.run_src(src, gc="mask:" + ",".join(map(str, s)), warn=0, want="tracked")
-                if r1.crash:
-                    bad.append((s, "interpreter died under this collection schedule: %s\n%s" % (r1.crash, r1["fd2"][:600])))
-                elif observe(r1.rec) != ref or r1.rec["polls"] != K:
-                    bad.append((s, "behaviour differs: without collections %r, with collections at statement boundaries %s: %r" % (ref, s, observe(r1.rec))))
-            continue
-        for s, rec in zip(chunk, recs):
-            if observe(rec) != ref:
-                bad.append((s, "behaviour differs: without collections %r, with collections at statement boundaries %s: %r" % (ref, s, observe(rec))))
-            elif rec["polls"] != K:
-                bad.append((s, "the number of statement boundaries changed from %d to %d under schedule %s" % (K, rec["polls"], s)))
-    # production triggers only (allocation pressure + destroy requests)
+        return name, None, None, "the run without collections died: %s %s" % (base.crash, base["fd2"][:300])
     own = vdrv.run_src(src, gc="own", warn=0, want="tracked")
-    nruns += 1
+    ref = observe(base.rec)
+    prob = None
     if own.crash:
-        bad.append(("own", "interpreter died with its own collection triggers: %s" % own.crash))
+        prob = "interpreter died with its own collection triggers: %s %s" % (own.crash, own["fd2"][:300])
     elif observe(own.rec) != ref:
-        bad.append(("own", "behaviour differs under the program's own triggers: %r vs %r" % (ref, observe(own.rec))))
-    return name, src, bad, nruns, K, ref
+        prob = "behaviour differs under the program's own triggers (allocation pressure, destroy): %r vs %r" % (ref, observe(own.rec))
+    return name, base.rec["polls"], ref, prob
+
+
+def _chunk(item):
+    name, K, ref, chunk = item
+    src = program(name)
+    spec = "/".join("mask:" + ",".join(map(str, s)) for s in chunk)
+    r = vdrv.run_job({"id": "g", "kind": "run", "opts": {"shots": len(chunk), "gcs": spec, "warn": 0, "want": "tracked", "timeout_ms": 60000}, "blobs": {"src": src}})
+    recs = r["records"]
+    bad = []
+    if r.crash or len(recs) != len(chunk):
+        for s in chunk:   # attribute: one schedule per process
+            r1 = vdrv.run_src(src, gc="mask:" + ",".join(map(str, s)), warn=0, want="tracked")
+            if r1.crash:
+                bad.append((s, "interpreter died under this collection schedule: %s\n%s" % (r1.crash, r1["fd2"][:600])))
+            elif observe(r1.rec) != ref or r1.rec["polls"] != K:
+                bad.append((s, "behaviour differs: without collections %r, with collections at statement boundaries %s: %r" % (ref, s, observe(r1.rec))))
+        return name, bad, len(chunk)
+    for s, rec in zip(chunk, recs):
+        if observe(rec) != ref:
+            bad.append((s, "behaviour differs: without collections %r, with collections at statement boundaries %s: %r" % (ref, s, observe(rec))))
+        elif rec["polls"] != K:
+            bad.append((s, "the number of statement boundaries changed from %d to %d under schedule %s" % (K, rec["polls"], s)))
+    return name, bad, len(chunk)
 
 
 def main(tier):
     global _K0, _D
     ck = vcheck.Check("C11", "model_checking", tier)
-    _K0, _D = (13, 3) if tier == "thorough" else (9, 2)
+    global _BUDGET
+    _K0, _D = (15, 3) if tier == "thorough" else (12, 2)
+    _BUDGET = 60000 if tier == "thorough" else 4000
     ck.set_deadline(1500 if tier == "thorough" else 150)
     names = list(BODIES)
     total = 0
     states = set()
     exhaustive_programs = 0
-    for name, src, bad, n, K, ref in vdrv.pmap(_one, names, chunksize=1):
-        total += n
-        if ref is not None:
-            states.add((name, ref))
-            if K <= _K0:
-                exhaustive_programs += 1
-        for s, p in bad[:4]:
-            ck.violation("gc:%s:%s" % (name, p.split(":")[0][:40]), "%s\nprogram (%s):\n%s" % (p, name, src),
-                         {"tool": "vdrv", "job": {"kind": "run", "opts": {"gc": ("mask:" + ",".join(map(str, s))) if isinstance(s, list) else s, "warn": 0, "want": "tracked"}, "blobs": {"src": src}}})
+    items = []
+    Ks = {}
+    bounds = {}
+    for name, K, ref, prob in vdrv.pmap(_base, names, chunksize=1):
+        total += 2
+        if K is None:
+            ck.violation("gc:%s:baseline" % name, "%s\nprogram (%s):\n%s" % (prob, name, program(name)), {"tool": "vdrv", "job": {"kind": "run", "opts": {"gc": "none"}, "blobs": {"src": program(name)}}})
+            continue
+        if prob:
+            ck.violation("gc:%s:own" % name, "%s\nprogram (%s):\n%s" % (prob, name, program(name)), {"tool": "vdrv", "job": {"kind": "run", "opts": {"gc": "own", "want": "tracked"}, "blobs": {"src": program(name)}}})
+        states.add((name, ref))
+        Ks[name] = K
+        # the largest deviation bound whose schedule count stays within the per-program budget
+        import math
+        d = 1
+        while d < 6 and sum(math.comb(K, k) for k in range(1, d + 2)) <= _BUDGET:
+            d += 1
+        scheds = list(schedules(K, _K0, d))
+        bounds[name] = "all subsets" if K <= _K0 else "<= %d collections (+ all)" % d
+        if K <= _K0:
+            exhaustive_programs += 1
+        for i in range(0, len(scheds), 32):
+            items.append((name, K, ref, scheds[i:i + 32]))
         if len(ck.samples) < 4:
-            ck.sample({"program": name, "statement_boundaries": K, "body": BODIES[name]})
+            ck.sample({"program": name, "statement_boundaries": K, "schedules": len(scheds), "body": BODIES[name]})
+    nbad = {}
+    B = 512
+    for start in range(0, len(items), B):
+        if ck.out_of_time():
+            ck.cap("deadline: %d of %d schedule chunks explored" % (start, len(items)))
+            break
+        for name, bad, n in vdrv.pmap(_chunk, items[start:start + B], chunksize=2):
+            total += n
+            for sch, p in bad:
+                nbad[name] = nbad.get(name, 0) + 1
+                if nbad[name] <= 2:
+                    ck.violation("gc:%s:%s" % (name, p.split(":")[0][:40]), "%s\nprogram (%s):\n%s" % (p, name, program(name)),
+                                 {"tool": "vdrv", "job": {"kind": "run", "opts": {"gc": "mask:" + ",".join(map(str, sch)), "warn": 0, "want": "tracked"}, "blobs": {"src": program(name)}}})
     # thread passes
     thr = {}
     try:
@@ -150,7 +181,7 @@ def main(tier):
         ck.note("thread passes (b)/(c) not built")
     ck.assumptions += ["collections are forced through the BLOCH_VERIF_HOOKS schedule at the interpreter's own poll points (statement starts and the end of execute)",
                        "heap-object counts and destructors of cyclic garbage (documented: not run) are not compared"]
-    cov = {"states": len(states), "transitions": total, "traces_validated_against_impl": total, "programs": len(names), "programs_with_all_subsets": exhaustive_programs,
+    cov = {"states": len(states), "transitions": total, "traces_validated_against_impl": total, "programs": len(names), "programs_with_all_subsets": exhaustive_programs, "statement_boundaries": Ks, "bound_per_program": bounds,
            "K0": _K0, "deviation_bound_beyond_K0": _D}
     cov.update(thr)
     ck.finish(cov, exhaustive=True)
